@@ -170,7 +170,10 @@ impl Numeric {
     }
 
     pub fn pow(&self, exp: i32) -> Numeric {
-        if exp < 0 {
+        if exp == i32::MIN {
+            // -exp does not fit: take one factor out first.
+            &(&Numeric::one() / &self.pow(i32::MAX)) / self
+        } else if exp < 0 {
             &Numeric::one() / &self.pow(-exp)
         } else {
             match *self {
